@@ -8,6 +8,7 @@ import (
 	"os"
 	"os/exec"
 	"path/filepath"
+	"regexp"
 	"runtime"
 	"sort"
 	"strings"
@@ -253,6 +254,14 @@ func writeReplay(prop string, seed int64, w *spec.World, v *runnerViolation, boo
 	return path, os.WriteFile(path, b, 0o644)
 }
 
+var (
+	reReqField   = regexp.MustCompile(`req\.[A-Za-z0-9_]+`)
+	reMismatch   = regexp.MustCompile(`\(mismatched types [^)]*\)`)
+	reSvc        = regexp.MustCompile(`Alpha|BetaService|GammaAPI`)
+	reCallHelper = regexp.MustCompile(`With<Svc>Call[A-Za-z0-9_]+`)
+	reHdrGetter  = regexp.MustCompile(`get[A-Za-z0-9_]+Headers`)
+)
+
 // bootSignature = (property, risk features of the world, normalised first diagnostic).
 func bootSignature(prop string, w *spec.World, diag string) string {
 	var risk []string
@@ -286,6 +295,11 @@ func normaliseDiag(d string) string {
 	if i := strings.Index(line, ".ts:"); i >= 0 {
 		line = line[i+4:]
 	}
+	line = reReqField.ReplaceAllString(line, "req.<F>")
+	line = reMismatch.ReplaceAllString(line, "(mismatched types)")
+	line = reSvc.ReplaceAllString(line, "<Svc>")
+	line = reCallHelper.ReplaceAllString(line, "With<Svc>Call<H>")
+	line = reHdrGetter.ReplaceAllString(line, "get<M>Headers")
 	var b strings.Builder
 	// replace identifiers that embed generated names by a placeholder: keep only the message shape
 	words := strings.Fields(line)
